@@ -77,12 +77,27 @@ def check(obs):
             fails.append(("wrong-invoke-id:%s:%s%s" % (o[1], tag, exc), "request had invoke ID %r, outcome carries %r; " % (obs["invoke"], o[2]) + desc))
         if o[0] > obs["horizon"]:
             fails.append(("late-outcome:%s" % tag, desc))
+        rs_, ps_ = txn.seg_counts(c)
+        if rs_ == 1 and ps_ == 1 and not c.get("iocb_queue_wait"):
+            # an unsegmented exchange is decided by the requester's own timer: at the latest (retries + 1) x APDU timeout after submission
+            bound = (c["retries"] + 1) * c["apdu_timeout"] / 1000.0
+            if o[0] > bound + 1e-6:
+                fails.append(("outcome-after-retry-budget:%s" % tag, "outcome at %.3f s, the configured timeouts and retry count allow %.3f s; " % (o[0], bound) + desc))
         if "iocb" in obs:
             io = obs["iocb"]
             ok = (io["state"] == 3 and io["has_response"] and not io["has_error"] and o[1] in ("ack", "simpleack")) or \
                  (io["state"] == 4 and io["has_error"] and not io["has_response"] and o[1] in ("error", "reject", "abort"))
             if not ok:
                 fails.append(("iocb-inconsistent:%s:%s" % (o[1], tag), "IOCB %r; " % (io,) + desc))
+    # retry discipline: an unsegmented request is put on the wire at most retries + 1 times
+    if txn.seg_counts(c)[0] == 1:
+        from collections import Counter
+        sent = Counter(f["apci"]["invoke"] for f in obs["frames"] if f.get("apci") and f["apci"]["type"] == 0 and f["src"] == 1 and not f["apci"].get("seg"))
+        for inv, n_ in sorted(sent.items()):
+            if n_ > c["retries"] + 1:
+                fails.append(("request-sent-%s-times-with-%d-retries:%s" % ("more" if n_ > c["retries"] + 2 else "once-too-often", c["retries"], tag),
+                              "the request with invoke ID %r was transmitted %d times, configured retries %d; " % (inv, n_, c["retries"]) + desc))
+                break
     r = obs["residue"]
     if outs and obs["quiescent"]:
         if r["client_tr"] or r["client_timers"]:
@@ -207,6 +222,8 @@ def plan(tier, seed):
     specs.append(dict(name="pairs-2", kind="pairs", which=2, tier=tier))
     for i in range(4):
         specs.append(dict(name="streams-%d" % i, kind="streams", n=800 if tier == "quick" else 8000))
+    for i in range(6):
+        specs.append(dict(name="fault+silence-%d" % i, kind="fault+silence", part=i, tier=tier))
     return specs
 
 
@@ -240,6 +257,24 @@ def run(spec, ctx):
                     for a2 in acts:
                         ctx.check(dict(k="txn", cfg=cfg, plan={str(i): list(a1), str(j): list(a2)}))
         ctx.mark_exhaustive("every pair of faults on configuration %d" % spec["which"])
+    elif kind == "fault+silence":
+        # one lost or late frame, then total silence from some later frame on: segmented transfers in either or both directions
+        S = 50
+        n2 = txn.payload_for_total(2 * S - 3)
+        n3 = txn.payload_for_total(3 * S - 5)
+        cfgs = []
+        for (rq, rp) in ((n2, n2), (n3, 5), (5, n3), (n3, n3)):
+            for (cw, sw) in ((2, 2), (1, 1), (3, 8)):
+                for retries in (0, 1) if spec["tier"] == "quick" else (0, 1, 3):
+                    cfgs.append(base_cfg(S, req_len=rq, rsp_len=rp, c_win=cw, s_win=sw, retries=retries))
+        for cfg in cfgs[spec["part"]::6]:
+            base, nframes = baseline_for(cfg)
+            for i in range(nframes):
+                for act in (("drop",), ("delay", 0.75)):
+                    for k in range(i + 1, nframes + 3):
+                        for src in (None, 1, 2):
+                            ctx.check(dict(k="txn", cfg=cfg, plan={str(i): list(act)}, silence=[k, src]))
+        ctx.mark_exhaustive("every single drop / delay followed by every later silence point on the segmented configurations (part %d)" % spec["part"])
     elif kind == "streams":
         from hypothesis import strategies as st
         act = st.one_of(st.just(["drop"]), st.just(["dup"]), st.tuples(st.just("delay"), st.sampled_from([0.1, 0.75, 1.5, 3.0, 6.0])).map(list))
